@@ -125,6 +125,103 @@ fn problem(tree: &Tree, maps: &[BTreeMap<String, Tree>], table: &Table, deep: bo
     }
 }
 
+/// The same over the real float type: replacements that list more variables than they use
+/// (derivatives keep the variables of their antiderivative), constants that make the folded
+/// result infinite or NaN, flat and deep.
+fn float_case(rng: &mut Rng, st: &mut Stats) {
+    use exmex::{DeepEx, FlatEx};
+    let names = ["a", "b", "c", "x", "y"];
+    let atom = |rng: &mut Rng| -> String {
+        if rng.chance(1, 4) {
+            ["2", "0.5", "3", "1"][rng.below(4)].to_string()
+        } else {
+            names[rng.below(names.len())].to_string()
+        }
+    };
+    let mut text = atom(rng);
+    for _ in 0..rng.range(1, 6) {
+        let op = ["+", "-", "*", "/", "/"][rng.below(5)];
+        let rhs = if rng.chance(1, 4) { format!("({}{}{})", atom(rng), ["+", "*", "-"][rng.below(3)], atom(rng)) } else { atom(rng) };
+        text = if rng.chance(1, 5) { format!("sqrt({text}){op}{rhs}") } else { format!("{text}{op}{rhs}") };
+    }
+    let value_of = |name: &str| -> f64 { 0.5 + 0.37 * (name.bytes().map(|b| b as usize).sum::<usize>() % 11) as f64 };
+    st.bump("cases");
+    st.bump("float_type_cases");
+    let deep = rng.chance(1, 2);
+    // (variable, kind of replacement)
+    let mut kinds: Vec<(usize, usize)> = vec![];
+    for i in 0..names.len() {
+        if rng.chance(1, 2) {
+            kinds.push((i, rng.below(6)));
+        }
+    }
+    let r = catch(|| -> Option<String> {
+        let orig = FlatEx::<f64>::parse(&text).ok()?;
+        let make = |kind: usize| -> Option<FlatEx<f64>> {
+            match kind {
+                0 => FlatEx::<f64>::parse("0").ok(),
+                1 => FlatEx::<f64>::parse("-1").ok(),
+                // leaves that list more variables than they use
+                2 => FlatEx::<f64>::parse("p*q").ok()?.partial(0).ok(),
+                3 => FlatEx::<f64>::parse("p+q").ok()?.partial(1).ok(),
+                4 => FlatEx::<f64>::parse("2*p*q+r").ok()?.partial(0).ok()?.partial(1).ok(),
+                _ => FlatEx::<f64>::parse("x/2+q").ok(),
+            }
+        };
+        let repl: Vec<(String, FlatEx<f64>)> = kinds.iter().filter_map(|(i, k)| Some((names[*i].to_string(), make(*k)?))).filter(|(n, _)| orig.var_names().contains(n)).collect();
+        // documented result
+        let mut want_vars: Vec<String> = orig.var_names().iter().filter(|v| !repl.iter().any(|(n, _)| n == *v)).cloned().collect();
+        for (_, e) in &repl {
+            want_vars.extend(e.var_names().iter().cloned());
+        }
+        want_vars.sort();
+        want_vars.dedup();
+        let bound: Vec<f64> = orig
+            .var_names()
+            .iter()
+            .map(|v| match repl.iter().find(|(n, _)| n == v) {
+                Some((_, e)) => e.eval(&e.var_names().iter().map(|n| value_of(n)).collect::<Vec<_>>()).unwrap_or(f64::NAN),
+                None => value_of(v),
+            })
+            .collect();
+        let want = orig.eval(&bound).ok()?;
+        let (got_vars, got): (Vec<String>, f64) = if deep {
+            let d = DeepEx::<f64>::parse(&text).ok()?;
+            let mut sub = |v: &str| repl.iter().find(|(n, _)| n == v).and_then(|(_, e)| e.clone().to_deepex().ok());
+            let res = match d.subs(&mut sub) {
+                Ok(r) => r,
+                Err(e) => return Some(format!("subs failed: {}", e.msg())),
+            };
+            let vals: Vec<f64> = res.var_names().iter().map(|n| value_of(n)).collect();
+            (res.var_names().to_vec(), res.eval(&vals).unwrap_or(f64::NAN))
+        } else {
+            let mut sub = |v: &str| repl.iter().find(|(n, _)| n == v).map(|(_, e)| e.clone());
+            let res = match orig.clone().subs(&mut sub) {
+                Ok(r) => r,
+                Err(e) => return Some(format!("subs failed: {}", e.msg())),
+            };
+            let vals: Vec<f64> = res.var_names().iter().map(|n| value_of(n)).collect();
+            (res.var_names().to_vec(), res.eval(&vals).unwrap_or(f64::NAN))
+        };
+        let desc: Vec<String> = repl.iter().map(|(n, e)| format!("{n} := {} over {:?}", e.unparse(), e.var_names())).collect();
+        if got_vars != want_vars {
+            return Some(format!("{text} with {desc:?}: variables {got_vars:?}, expected the sorted union {want_vars:?}"));
+        }
+        let same = (got.is_nan() && want.is_nan()) || got == want || (got.is_finite() && want.is_finite() && (got - want).abs() <= 1e-9 * want.abs().max(1.0));
+        if !same {
+            return Some(format!("{text} with {desc:?}: value {got}, the original with the replaced variables bound to their replacements' values gives {want}"));
+        }
+        None
+    });
+    let p = match r {
+        Ok(p) => p,
+        Err(m) => Some(format!("panic: {m}")),
+    };
+    if let Some(p) = p {
+        st.violation(format!("float-subs|{}|{}", if deep { "deep" } else { "flat" }, p.chars().take(70).collect::<String>()), p.len(), json!({"kind": "substitution-f64", "form": if deep {"DeepEx"} else {"FlatEx"}, "problem": p}));
+    }
+}
+
 pub fn run(ctx: &Ctx) -> i32 {
     let n = ctx.n(80_000, 4_000_000);
     let stats = run_workers(ctx, 11, |w, rng, st| {
@@ -134,6 +231,9 @@ pub fn run(ctx: &Ctx) -> i32 {
             if i % 16 == 0 {
                 table = gen_table(rng, &TableCfg::default());
                 install(&table);
+            }
+            if i % 8 == 3 {
+                float_case(rng, st);
             }
             // names whose byte order differs from their case-insensitive order; every fifth case has
             // more distinct names than the inline capacity of the name lists (16), with repetitions
@@ -185,9 +285,10 @@ pub fn run(ctx: &Ctx) -> i32 {
         }
     });
     let report = Report::new(
-        "random trees (1..14 operands over mixed-case, Greek and braced variable names; every fifth case 18..50 operands over 17..30 distinct names with repetitions) x 1..3 rounds of partial maps variable -> expression (constants, renamings, swaps x:=y,y:=x, identity, empty map, compound replacements, replacements that mention the replaced variable itself) on FlatEx and DeepEx over the term algebra with random tables. Oracle: one-pass simultaneous substitution on the reference tree; after every round the variable list must be the sorted union of untouched and replacement variables and the term (mod AC) the substituted reference. distinct_nontrivial = distinct (form, tree shape, map sizes) classes.",
+        "random trees (1..14 operands over mixed-case, Greek and braced variable names; every fifth case 18..50 operands over 17..30 distinct names with repetitions) x 1..3 rounds of partial maps variable -> expression (constants, renamings, swaps x:=y,y:=x, identity, empty map, compound replacements, replacements that mention the replaced variable itself) on FlatEx and DeepEx over the term algebra with random tables. Also over f64: replacements that are derivatives (they list more variables than they use) and constants that make the folded result infinite or NaN. Oracle: one-pass simultaneous substitution on the reference tree; after every round the variable list must be the sorted union of untouched and replacement variables and the term (mod AC) the substituted reference. distinct_nontrivial = distinct (form, tree shape, map sizes) classes.",
     )
     .require("maps_empty", 500)
+    .require("float_type_cases", 5000)
     .require("cases_with_many_variables", 2000)
     .require("results_with_more_than_16_variables", 500)
     .require("maps_swap", 500)
